@@ -10,10 +10,23 @@
    its block step available, the reported position has advanced by exactly the
    samples delivered, and the handle is in sync again.  So positions stay
    truthful for the whole linear decode from any synchronised point, whatever
-   the page layout.  NOT proved: that every seek re-establishes that invariant
-   (the seek loops are tied per run by the bit-exact oracle), half-rate, the
-   end-of-stream trim: see DESIGN.md section 13. *)
-From VV Require Import Blocking VFile VFile_lemmas VFileDemo Sync_lemmas.
+   the page layout; (3) SAMPLE SEEKS (ov_pcm_seek, full rate, any opened handle,
+   any page layout): if the page seek succeeds without the continued-packet
+   fallback and the packets from the landing point on form an intact run of the
+   link that reaches the target (block sizes multiples of four, no end-of-stream
+   packet in the run, every granule position that is present equals the link's
+   initial offset plus the position where its block ends), then ov_pcm_seek
+   returns 0, reports EXACTLY the target, and is truthful: the decoder is either
+   quiet with the next packet ending at the reported position, or holds pending
+   samples that are the samples at the reported position onwards, with its own
+   tracking in agreement with every later granule position.  The hypotheses are
+   an executable test (seek_hyps); the per-run harness evaluates it for every
+   sample seek it performs and demands position = target from the real code.
+   NOT proved: raw seeks, page-granularity seeks' own landing position, the
+   continued-packet fallback, seeks that finish inside the last page (end-of-
+   stream trim), half-rate: tied per run by the bit-exact oracle.  See DESIGN.md
+   section 13. *)
+From VV Require Import Blocking VFile VFile_lemmas VFileDemo Sync_lemmas Seek_lemmas.
 From Coq Require Import ZArith List.
 Import ListNotations.
 Local Open Scope Z_scope.
@@ -63,6 +76,47 @@ Proof.
   - unfold SyncInv. vm_compute. repeat split; try discriminate; try reflexivity; try (intros H; discriminate H). right. reflexivity.
   - unfold intact. vm_compute. split; [reflexivity|right; reflexivity].
 Qed.
+
+(* sample seek on an intact run: exact and truthful *)
+Theorem C07_pcm_seek_truthful_on_intact_run :
+  forall (tail : list page) s pos s1,
+    v_hs s = 0 -> OPENED <= v_rs s <= INITSET ->
+    pcm_seek_page s pos = (0, s1) -> fallback s pos = false -> FileIntact tail s1 pos ->
+    fst (pcm_seek s pos) = 0 /\ Truthful tail (snd (pcm_seek s pos)) pos /\ v_pcm (snd (pcm_seek s pos)) = pos.
+Proof. exact pcm_seek_intact. Qed.
+Print Assumptions C07_pcm_seek_truthful_on_intact_run.
+
+(* the same with the hypotheses as one executable test *)
+Theorem C07_pcm_seek_checked :
+  forall s pos, seek_hyps s pos = true ->
+    fst (pcm_seek s pos) = 0 /\ v_pcm (snd (pcm_seek s pos)) = pos /\
+    Truthful (auto_tail (snd (pcm_seek_page s pos))) (snd (pcm_seek s pos)) pos.
+Proof. exact pcm_seek_checked. Qed.
+Print Assumptions C07_pcm_seek_checked.
+
+(* what "truthful" means for the samples delivered next: with samples pending, draining them
+   delivers n samples, the position advances by n and the handle is in sync there (so theorem
+   C07_linear_read_positions_truthful applies from then on); with a quiet decoder the next
+   packet delivers nothing and leaves the handle in sync at the reported position *)
+Theorem C07_truthful_pending :
+  forall (tail : list page) s pos, NReady tail s pos ->
+    exists e, v_pcm s = base_of s (v_link s) + e /\
+      let '(n, s2) := drain s in
+      0 <= n /\ SyncInv s2 (e + n) /\ v_pcm s2 = v_pcm s + n /\
+      IntactS (cur_link s) false (e + n) (d_W (v_dec s2)) (stream tail s2).
+Proof. exact nready_drain. Qed.
+Print Assumptions C07_truthful_pending.
+Theorem C07_truthful_quiet :
+  forall s e p w, Core s -> PreSync s e p w ->
+    SyncInv (feed s p w) e /\ dec_pcmout (v_dec (feed s p w)) = 0 /\ d_W (v_dec (feed s p w)) = w.
+Proof. exact feed_presync. Qed.
+Print Assumptions C07_truthful_quiet.
+
+(* non-vacuity: on the demo link the hypotheses hold for EVERY target up to the last granule position
+   before the final page (673 targets), and fail - as they must - inside the final page *)
+Example C07_seek_hyps_nonvacuous :
+  forallb (fun k => seek_hyps demo2 (Z.of_nat k)) (seq 0 673) = true /\ seek_hyps demo2 673 = false.
+Proof. split; vm_compute; reflexivity. Qed.
 
 (* non-vacuity: a two-link page table on which the model seeks and reads *)
 Example C07_demo_runs :
